@@ -102,7 +102,7 @@ func stripDir(v any, dir string) any {
 func C18(r *drv.Run) {
 	r.BuildWorker()
 	r.BuildCLI()
-	r.Rule = "the built vore binary in scratch directories over the cross product {-com, -src} x 5 file sets (one file, several by glob, none matching, a glob with the star in the middle of a name, a glob into a sub-directory) x {none, -json, -formatted-json} x {-json-file} x {-formatted-json-file} x {default, NEW, NOTHING, OVERWRITE} x {-no-output} x {find, replace, two statements, failing program} (thorough: all 3 840; quick: a seed-selected 400) plus 14 invalid invocations; a quarter of the invocations with the -files pattern made absolute, two thirds with their flag groups in a seed-chosen order and spelling (-flag value, --flag value, -flag=value). Oracle: exit status; stdout under -json/-formatted-json is exactly one JSON document equal (after decoding) to the library's result for the same program and files, computed by a worker through RunFiles; the named JSON files likewise; replace mode honoured with NEW as default and outputs equal to the splice (directory snapshot before/after); invalid invocations, unknown modes and compile errors exit non-zero with a message and an empty snapshot diff. Non-trivial = invocation with >= 1 match whose JSON/stdout/file effects were all verified; distinct by configuration."
+	r.Rule = "the built vore binary in scratch directories over the cross product {-com, -src} x 5 file sets (one file, several by glob, none matching, a glob with the star in the middle of a name, a glob into a sub-directory) x {none, -json, -formatted-json} x {-json-file} x {-formatted-json-file} x {default, NEW, NOTHING, OVERWRITE} x {-no-output} x {find, replace, two statements, failing program} (thorough: all 3 840; quick: a seed-selected 400) plus 14 invalid invocations and 19 unknown mode names (other letter cases, near misses, the engine's internal fourth mode CONFIRM, numbers, lists) each with a find and a replace program; a quarter of the invocations with the -files pattern made absolute, two thirds with their flag groups in a seed-chosen order and spelling (-flag value, --flag value, -flag=value). Oracle: exit status; stdout under -json/-formatted-json is exactly one JSON document equal (after decoding) to the library's result for the same program and files, computed by a worker through RunFiles; the named JSON files likewise; replace mode honoured with NEW as default and outputs equal to the splice (directory snapshot before/after); invalid invocations, unknown modes and compile errors exit non-zero with a message and an empty snapshot diff. Non-trivial = invocation with >= 1 match whose JSON/stdout/file effects were all verified; distinct by configuration."
 	r.Assumptions = []string{
 		"with -no-output only exit status and file effects of the replace mode are demanded (the documentation does not say whether JSON files are still written)",
 		"zero matches / no files: exit 0 and no JSON demanded (the property's 'when there is at least one match')",
@@ -491,6 +491,12 @@ func c18Invalid(r *drv.Run) {
 		{"-com", "find all 'a'", "-files", "*.txt", "-no-such-flag"},
 		{"-com", "find all 'a' --(", "-files", "*.txt", "-json-file", "out.json"},
 		{},
+	}
+	// every mode name but the three documented ones is unknown: other cases, near misses, the engine's internal
+	// fourth mode, the numeric values of the enumeration, lists
+	for _, m := range []string{"CONFIRM", "confirm", "Overwrite", "new", "nothing", "NEW ", " NEW", "NEWER", "OVER", "ASK", "APPEND", "DRYRUN", "0", "1", "2", "3", "NEW,OVERWRITE", "OVERWRITE\n", "-"} {
+		cases = append(cases, []string{"-com", "find all 'Hello'", "-files", "*.txt", "-replace-mode", m},
+			[]string{"-com", "replace all 'Hello' with 'Bye'", "-files", "*.txt", "-json", "-replace-mode=" + m})
 	}
 	for i, args := range cases {
 		dir := filepath.Join(r.WorkDir, "c18", fmt.Sprintf("inv%d", i))
